@@ -208,6 +208,7 @@ def grid_cases():
             yield {"interval": I, "timeout": T, "secure": True, "traffic": [[2 * I + 0.5 * T, "data"], [3 * I - 0.2, "pong"], [5 * I + T + 0.5, "pong"]]}
             yield {"interval": I, "timeout": T, "secure": True, "silent_from": 1, "traffic": [[3 * I + 0.3 * T, "data"], [3 * I + 0.9 * T, "data"]]}
             yield {"interval": I, "timeout": T, "pong_with_data": 1}
+            yield {"interval": I, "timeout": T, "payload": b"ka", "traffic": [[3 * I - 0.2, "pong"]]}  # (ping() takes bytes as well as str)
             yield {"interval": I, "timeout": T, "pong_with_data": 30, "secure": True}
             # the same through an external (rel-style) dispatcher, which runs the liveness check on its own timer
             yield {"interval": I, "timeout": T, "external": True}
@@ -238,7 +239,7 @@ def cases(draw):
         return {"interval": I, "timeout": None, "payload": draw(st.sampled_from(["", "hb"])), "secure": draw(st.booleans()), "rerun": draw(st.integers(0, 3)) == 0,
                 "pong": draw(st.lists(st.sampled_from([0.0, 0.01, 0.5, None, None]), max_size=10)), "default_lat": draw(st.sampled_from([0.0, 0.01, 2.0])),
                 "traffic": sorted([round(draw(st.integers(1, 12)) * I + draw(st.sampled_from([-0.1, 0.0, 0.2])), 4), draw(st.sampled_from(["data", "ping", "pong"]))] for _ in range(draw(st.integers(0, 4))))}
-    c = {"interval": I, "timeout": T, "payload": draw(st.sampled_from(["", "", "hb", "é"])), "secure": draw(st.integers(0, 2)) == 0,
+    c = {"interval": I, "timeout": T, "payload": draw(st.sampled_from(["", "", "hb", "é", b"", b"ka", b"\xff\x00"])), "secure": draw(st.integers(0, 2)) == 0,
          "rerun": draw(st.integers(0, 3)) == 0, "pong_with_data": draw(st.sampled_from([0, 0, 1, 20]))}
     mode = draw(st.sampled_from(["responsive", "responsive", "silent", "silent", "late"]))
     if mode == "silent":
